@@ -409,7 +409,7 @@ func init() {
 				cs = append(cs, c19Proc{Signal: []string{"TERM", "INT"}[i%2], AfterMs: 50 + r.Intn(400), ReqMs: 700, Phase: []string{"body", "headers"}[(i/2)%2], Idx: i})
 			}
 			// a process that has been up for longer than its shutdown timeout: the timeout counts from the signal
-			for i := 0; i < e.Pick(2, 6); i++ {
+			for i := 0; i < e.Pick(4, 8); i++ {
 				cs = append(cs, c19Proc{Signal: []string{"TERM", "INT"}[i%2], AfterMs: 100, ReqMs: 300, Phase: []string{"body", "headers"}[i%2], Idx: 100 + i, ShutdownS: 2, UptimeMs: 2600})
 			}
 			return cs
@@ -419,7 +419,6 @@ func init() {
 			be := vh.NewBackend("b0")
 			defer be.Close()
 			cfg := baseConfig("round_robin", []*vh.Backend{be})
-			cfg.Server.Port = freePort()
 			cfg.Server.Timeouts.Shutdown = 5
 			if c.ShutdownS > 0 {
 				cfg.Server.Timeouts.Shutdown = c.ShutdownS
@@ -428,47 +427,58 @@ func init() {
 			cfg.HealthChecks.Active = config.ActiveHealthCheckConfig{Enabled: true, Interval: 1, Timeout: 0, Path: "/health"}
 			cfg.HealthChecks.Active.Timeout = 1
 			cfg.HealthChecks.Active.Interval = 2
-			data, _ := yaml.Marshal(cfg)
-			path := filepath.Join(e.TmpDir, fmt.Sprintf("c19-%d.yaml", c.Idx))
-			os.WriteFile(path, data, 0o644)
-			logp := path + ".log"
-			logf, _ := os.Create(logp)
-			cmd := exec.Command(e.BinPath, "-config", path)
-			cmd.Stdout, cmd.Stderr = logf, logf
-			if err := cmd.Start(); err != nil {
-				o.Inconcl("start: %v", err)
-				return
-			}
-			exit := make(chan error, 1)
-			go func() { exit <- cmd.Wait() }()
-			addr := fmt.Sprintf("127.0.0.1:%d", cfg.Server.Port)
+			var cmd *exec.Cmd
+			var exit chan error
+			var addr, logp, upNote string
+			var logf *os.File
 			up, exitedEarly := false, false
-			upNote := "the process never listened on its port"
-			for i := 0; i < 1000; i++ {
-				// only talk to the port once this very process holds it
-				if vh.PidListens(cmd.Process.Pid, cfg.Server.Port) {
-					// a few attempts: on a loaded machine the first exchange through a fresh process can take seconds
-					for try := 0; try < 5 && !up; try++ {
-						rs := vh.Do(addr, vh.RawReq{Method: "GET", Target: "/up", TimeoutMs: 5000})
-						up = rs.Status == 200
-						upNote = fmt.Sprintf("status %d err %q", rs.Status, rs.Err)
+			// a process that does not come up (its port can be taken by another process between the reservation and its
+			// own bind) is started again on another port
+			for attempt := 0; attempt < 4 && !up; attempt++ {
+				cfg.Server.Port = freePort()
+				data, _ := yaml.Marshal(cfg)
+				path := filepath.Join(e.TmpDir, fmt.Sprintf("c19-%d-%d.yaml", c.Idx, attempt))
+				os.WriteFile(path, data, 0o644)
+				logp = path + ".log"
+				logf, _ = os.Create(logp)
+				cmd = exec.Command(e.BinPath, "-config", path)
+				cmd.Stdout, cmd.Stderr = logf, logf
+				if err := cmd.Start(); err != nil {
+					o.Inconcl("start: %v", err)
+					return
+				}
+				ex := make(chan error, 1)
+				exit = ex
+				go func(cm *exec.Cmd) { ex <- cm.Wait() }(cmd)
+				addr = fmt.Sprintf("127.0.0.1:%d", cfg.Server.Port)
+				exitedEarly = false
+				upNote = "the process never listened on its port"
+				for i := 0; i < 1000; i++ {
+					// only talk to the port once this very process holds it
+					if vh.PidListens(cmd.Process.Pid, cfg.Server.Port) {
+						// a few attempts: on a loaded machine the first exchange through a fresh process can take seconds
+						for try := 0; try < 5 && !up; try++ {
+							rs := vh.Do(addr, vh.RawReq{Method: "GET", Target: "/up", TimeoutMs: 5000})
+							up = rs.Status == 200
+							upNote = fmt.Sprintf("status %d err %q", rs.Status, rs.Err)
+						}
+						break
 					}
-					break
+					select {
+					case <-exit:
+						exitedEarly = true
+						i = 1000
+					default:
+					}
+					time.Sleep(20 * time.Millisecond)
 				}
-				select {
-				case <-exit:
-					exitedEarly = true
-					i = 1000
-				default:
-				}
-				time.Sleep(20 * time.Millisecond)
-			}
-			if !up {
-				if !exitedEarly {
+				if !up && !exitedEarly {
 					cmd.Process.Kill()
 					<-exit
 				}
-				o.Inconcl("binary did not come up (%s; exited early: %v; its port may have been taken by another process)", upNote, exitedEarly)
+			}
+			if !up {
+				o.Inconcl("binary did not come up in 4 starts (%s; exited early: %v; its port may have been taken by another process)", upNote, exitedEarly)
 				return
 			}
 			if c.UptimeMs > 0 {
